@@ -256,6 +256,17 @@ class Interp:
                         c.args[0],
                     )
                 return frozenset({"module"})
+            if q == "ext:importlib.util.find_spec" and c.args:
+                k = argk[0]
+                if k is not None:
+                    # find_spec imports the parent packages (ImportError and its kin), and for a module that is loaded already it answers
+                    # from `sys.modules[name].__spec__`: a module without a spec (the __main__ of a script, a types.ModuleType put into
+                    # sys.modules) is a ValueError, as is the empty name
+                    self.op("find_spec", c, k, {"ModuleNotFoundError": k & {"str_ok"}, "ImportError": k & {"str_ok", "str_dot"}, "RecursionError": k & {"str_ok"},
+                                                "ValueError": k & {"str_ok", "str_empty"}, "AttributeError": k - STR}, env, c.args[0])
+                return None
+            if q and q.startswith("ext:") and any(k is not None for k in argk):
+                raise AnalysisError(f"JS-ESCAPE: the tag reaches `{src(c)[:70]}` ({q[4:]}), a library call the effect table has no row for - what it raises for an unresolvable tag is not known")
             # repo method receiving a tracked value: dict-key use requires hashability
             for i, k in enumerate(argk):
                 if k is not None and (k & {"value"}):
